@@ -24,6 +24,8 @@ type RawNet struct {
 	fams    [64]int
 	SendErr error
 	SockErr error
+	// SendDelay: the socket's send buffer is full, each send blocks this long
+	SendDelay time.Duration
 }
 
 // Socket replaces syscall.Socket.
@@ -58,6 +60,18 @@ func Sendto(fd int, p []byte, flags int, to syscall.Sockaddr) error {
 	}
 	if r.SendErr != nil {
 		return r.SendErr
+	}
+	if r.SendDelay > 0 {
+		// a blocking system call: counts as a stall in progress, nobody takes
+		// the traffic for processed meanwhile
+		s.mu.Lock()
+		s.stalling++
+		s.mu.Unlock()
+		time.Sleep(r.SendDelay)
+		s.mu.Lock()
+		s.stalling--
+		s.mu.Unlock()
+		Yield(siteRaw)
 	}
 	var dst []byte
 	switch a := to.(type) {
